@@ -115,6 +115,10 @@ def is_dyadic(fr):
 class Gen:
     def __init__(self):
         self.groups = []
+        self.tolerant = set()    # (header, line): inputs on which only containment within the 1e-9 tolerance is required
+
+    def tol(self):
+        self.tolerant.add((self.groups[-1][0], self.groups[-1][1][-1]))
 
     def G(self, *a):
         self.groups.append((("G " + " ".join(map(str, a))).strip(), []))
@@ -178,6 +182,8 @@ def gen_iterators(g, thorough):
 
 def levels_for(rng, k, m, mode):
     """k strictly decreasing dyadic levels in (0,1) (multiples of 2^-m) followed by 0"""
+    while (1 << m) - 1 < k:
+        m += 1
     den = 1 << m
     if mode == "tight" and k <= den - 1:          # consecutive multiples: differences exactly 2^-m
         top = rng.randint(k, den - 1)
@@ -234,6 +240,14 @@ def gen_locate_freud(g, rng, d, parts_list, thorough, expected):
                 line = "L %s %s" % (qs(scale), " ".join(qs(c) for c in p))
                 g.op(line)
                 expected[(g.groups[-1][0], line)] = sx(v, ps)
+    # points a hair (2^-40 < 1e-9) off lower-dimensional faces: the implementation may merge or not; containment within tolerance
+    for ps in (parts_list if len(parts_list) <= 40 else rng.sample(parts_list, 40)):
+        v = rand_vertex(rng, d)
+        x = point_in(rng, v, ps, rng.choice((3, 4, 6)), rng.choice(("rand", "tight", "edge")))
+        x = [xi + rng.choice((-1, 0, 0, 1, 2)) * Fraction(1, 1 << 40) for xi in x]
+        scale = rng.choice((Fraction(1), Fraction(2), Fraction(1, 4)))
+        g.op("L %s %s" % (qs(scale), " ".join(qs(xi / scale) for xi in x)))
+        g.tol()
     # unstructured dyadic points, integer points, negative, large
     for _ in range(60 if thorough else 25):
         m = rng.choice((0, 1, 2, 3, 8))
@@ -283,10 +297,11 @@ def gen_affine(g, rng, d, parts_list, kind, cls, expected, thorough):
     off = [Fraction(0)] * d if kind == "matrix" else [Fraction(rng.randint(-8, 8), rng.choice((1, 2, 4))) for _ in range(d)]
     g.G(d, kind, " ".join(qs(c) for row in M for c in row), " ".join(qs(c) for c in off))
     hdr = g.groups[-1][0]
-    pl = parts_list if cls == "diag" else [ps for ps in parts_list if len(ps[-1]) == 1]
-    if len(pl) > (60 if thorough else 30):
-        pl = rng.sample(pl, 60 if thorough else 30)
+    pl = parts_list
+    if len(pl) > (80 if thorough else 40):
+        pl = rng.sample(pl, 80 if thorough else 40)
     for ps in pl:
+        unstable = cls != "diag" and len(ps[-1]) > 1
         scale = rng.choice((Fraction(1), Fraction(2), Fraction(1, 2), Fraction(4)))
         v = rand_vertex(rng, d)
         x = point_in(rng, v, ps, rng.choice((3, 4, 5)), rng.choice(("rand", "tight", "edge")))
@@ -295,29 +310,35 @@ def gen_affine(g, rng, d, parts_list, kind, cls, expected, thorough):
         line = "L %s %s | %s" % (qs(scale), " ".join(qs(c) for c in p), " ".join(qs(c) for c in x))
         g.op(line)
         expected[(hdr, line)] = sx(v, ps)
+        if unstable:
+            g.tol()
         line = "LC %s %s" % (qs(scale), " ".join(qs(c) for c in x))
         g.op(line)
         expected[(hdr, line)] = sx(v, ps)
+        if unstable:
+            g.tol()
     # cartesian coordinates and barycenters (power-of-two scales: exact in double)
     for ps in (parts_list if len(parts_list) <= 40 else rng.sample(parts_list, 40)):
         v = rand_vertex(rng, d)
         scale = rng.choice((Fraction(1), Fraction(2), Fraction(1, 2), Fraction(8)))
         g.op("K", qs(scale), ",".join(map(str, v)))
         g.op("B", qs(scale), sx(v, ps))
-    for ps in [q for q in (parts_list if len(parts_list) <= 40 else rng.sample(parts_list, 40)) if len(q[-1]) == 1]:
+    for ps in (parts_list if len(parts_list) <= 40 else rng.sample(parts_list, 40)):
         v = rand_vertex(rng, d)
         line = "LB %s %s" % (qs(rng.choice((Fraction(1), Fraction(2), Fraction(1, 2)))), sx(v, ps))
         g.op(line)
         expected[(hdr, line)] = sx(v, ps)
+        if len(ps[-1]) > 1:
+            g.tol()
     g.op("DIM")
 
 
 def gen_coxeter(g, rng, d, parts_list, expected, thorough):
     g.G(d, "coxeter")
     hdr = g.groups[-1][0]
-    pl = [ps for ps in parts_list if len(ps[-1]) == 1]
-    if len(pl) > (80 if thorough else 30):
-        pl = rng.sample(pl, 80 if thorough else 30)
+    pl = parts_list
+    if len(pl) > (100 if thorough else 40):
+        pl = rng.sample(pl, 100 if thorough else 40)
     for ps in pl:
         scale = rng.choice((Fraction(1), Fraction(2), Fraction(1, 2)))
         v = rand_vertex(rng, d)
@@ -325,10 +346,14 @@ def gen_coxeter(g, rng, d, parts_list, expected, thorough):
         line = "LC %s %s" % (qs(scale), " ".join(qs(c) for c in x))
         g.op(line)
         expected[(hdr, line)] = sx(v, ps)
+        if len(ps[-1]) > 1:
+            g.tol()
         v = rand_vertex(rng, d)
         line = "LB %s %s" % (qs(rng.choice((Fraction(1), Fraction(2), Fraction(1, 2)))), sx(v, ps))
         g.op(line)
         expected[(hdr, line)] = sx(v, ps)
+        if len(ps[-1]) > 1:
+            g.tol()
     g.op("DIM")
 
 
@@ -339,10 +364,11 @@ def gen_freud_coords(g, rng, d, parts_list, expected):
         scale = rng.choice((Fraction(1), Fraction(2), Fraction(1, 4), Fraction(16)))
         g.op("K", qs(scale), ",".join(map(str, v)))
         g.op("B", qs(scale), sx(v, ps))
-        if len(ps[-1]) == 1:
-            line = "LB %s %s" % (qs(scale), sx(v, ps))
-            g.op(line)
-            expected[(g.groups[-1][0], line)] = sx(v, ps)
+        line = "LB %s %s" % (qs(scale), sx(v, ps))
+        g.op(line)
+        expected[(g.groups[-1][0], line)] = sx(v, ps)
+        if len(ps[-1]) > 1:
+            g.tol()
     g.op("DIM")
 
 
@@ -432,7 +458,9 @@ def compare(ctx, g, res, drv, orc, expected):
             if op in ("L", "LC", "LB", "K", "B", "DIM"):
                 res.count("triangulation:" + kind)
             model, _, spec = e.partition(" # ")
-            case = {"group": h, "line": line}
+            spec, _, tolspec = spec.partition(" # ")
+            tolerant = (h, line) in g.tolerant
+            case = {"group": h, "line": line, "tolerant": tolerant}
             co = canon_answer(op, o)
             cm = canon_answer(op, model)
             if op in ("L", "LC", "LB"):
@@ -443,6 +471,16 @@ def compare(ctx, g, res, drv, orc, expected):
                         res.count("locate:parts-returned-unsorted")
                 except Exception:
                     pass
+                if tolerant:
+                    # only containment within the documented tolerance is required of these inputs
+                    res.count("locate:tolerant-input")
+                    if tolspec == "tolok":
+                        if co != cm:
+                            res.count("locate:tolerant-input-neighbouring-simplex-returned")
+                    else:
+                        res.violation("locate:tolerance:" + kind, "%s | %s: the returned simplex %s does not contain the point "
+                                      "within 1e-9 (exact location: %s)" % (h, line, o, model), case, expected=model, observed=o)
+                    continue
                 want = expected.get((h, line))
                 if want is not None and want != co:
                     res.violation("locate:constructed:" + kind, "%s | %s: the point was built in the relative interior of %s, "
@@ -478,6 +516,8 @@ def check(ctx, replay=None):
     if replay:
         g = Gen()
         g.groups = [(replay["case"]["group"], [replay["case"]["line"]] if replay["case"]["line"] else [])]
+        if replay["case"].get("tolerant"):
+            g.tolerant.add((replay["case"]["group"], replay["case"]["line"]))
     else:
         g, expected = generate(ctx.rng, ctx.tier)
     compare(ctx, g, res, drv, orc, expected)
